@@ -107,6 +107,10 @@ pub trait Host {
     fn ack_render(&mut self) -> Option<bool> {
         None
     }
+    /// bridge only: the serialized effect batches returned so far, byte for byte, in call order
+    fn take_raw(&mut self) -> Vec<Vec<u8>> {
+        vec![]
+    }
     /// bridge only: (never, once, many) entries in the registry
     fn registry_kinds(&mut self) -> Option<(usize, usize, usize)> {
         None
@@ -728,6 +732,7 @@ where
     pub consumed: BTreeMap<ReqKey, (u32, OpName)>,
     /// two outstanding requests with the same (site, arg): the program is outside the generator's discipline
     pub dup_keys: Vec<ReqKey>,
+    pub raw: Vec<Vec<u8>>,
 }
 
 impl<A: SimApp> BridgeHost<A>
@@ -755,10 +760,14 @@ where
             errors: vec![],
             consumed: BTreeMap::new(),
             dup_keys: vec![],
+            raw: vec![],
         }
     }
 
     pub fn absorb_bytes(&mut self, bytes: &[u8]) -> Result<(), String> {
+        if self.raw.len() < 10_000 {
+            self.raw.push(bytes.to_vec());
+        }
         let reqs: Vec<crux_core::bridge::Request<<A::Effect as crux_core::Effect>::Ffi>> =
             decode(self.wire, bytes).map_err(|e| format!("shell could not decode the effect requests: {e}"))?;
         for r in reqs {
@@ -849,6 +858,9 @@ where
         }
         let bytes = self.encode_output(OpName::Render, 0);
         Some(matches!(self.bridge.handle_response(id, &bytes), Err(BridgeError::ProcessResponse(_))))
+    }
+    fn take_raw(&mut self) -> Vec<Vec<u8>> {
+        std::mem::take(&mut self.raw)
     }
     fn bad_item(&mut self, key: ReqKey) -> Option<bool> {
         let (id, _op) = self.ids.get(&key).copied()?;
